@@ -57,8 +57,15 @@ out += ["### 11.4 Seeded changes (independently written property-breaking patche
         "Each was written by a fresh sub-agent that saw only the property text and a scratch worktree, confirmed by the main agent "
         "(builds, existing tests of the touched packages pass, demonstration fails with / passes without), and stored under "
         "`seeded/<id>/`. `tools/seedcheck.sh <id>` applies it to a scratch worktree and runs the property's quick check against it.", "",
-        "| seeded id | property | what it does / what it needs | caught by quick tier | violation signatures |",
-        "|---|---|---|---|---|"]
+        "| seeded id | property | what it does / what it needs | caught when first tried | caught by quick tier now | violation signatures |",
+        "|---|---|---|---|---|---|"]
+_tot = sum(len(v) for v in seeded.values())
+_first = sum(1 for v in seeded.values() for _, m, _r in v if m.get("first_run", {}).get("caught"))
+_now = sum(1 for v in seeded.values() for _, _m, r in v if r and r.get("caught"))
+out.insert(len(out) - 2, "Totals: %d seeded changes (three rounds; later rounds were told the earlier mechanisms and asked for different ones); "
+           "%d were caught by the quick tier as it stood when they were first tried, %d are caught by the current quick tier. Every miss was "
+           "answered by extending the specification (new input class, action, fault kind or sequence dimension) — see the per-property notes." % (_tot, _first, _now))
+out.insert(len(out) - 2, "")
 for pid in sorted(seeded):
     for sid, meta, res in seeded[pid]:
         s = re.sub(r"\s+", " ", meta.get("summary", ""))[:260].replace("|", "/")
@@ -68,7 +75,9 @@ for pid in sorted(seeded):
         else:
             c = "yes" if res.get("caught") else "**no**"
             sg = "; ".join(res.get("violation_signatures", [])[:3]).replace("|", "/")[:240]
-        out.append("| %s | %s | %s — needs: %s | %s | %s |" % (sid, pid, s, n, c, sg))
+        fr = meta.get("first_run", {})
+        f1 = "yes" if fr.get("caught") else ("no (exit %s)" % fr.get("check_exit") if fr else "?")
+        out.append("| %s | %s | %s — needs: %s | %s | %s | %s |" % (sid, pid, s, n, f1, c, sg))
 out.append("")
 import subprocess
 log = subprocess.run(["git", "-C", "/repo", "log", "--reverse", "--format=%h %s", "f51f9d7..HEAD"], capture_output=True, text=True).stdout.strip().splitlines()
